@@ -101,3 +101,23 @@ pub fn str_split_at<'a>(s: &'a str, i: usize) -> (r: (&'a str, &'a str))
     requires is_boundary(s@, i as int)
     ensures r.0@ == s@.take(char_at_off(s@, i as int)), r.1@ == s@.skip(char_at_off(s@, i as int))
 { unimplemented!() }
+
+#[verifier::external_body]
+pub fn str_ends_with_char(s: &str, c: char) -> (r: bool) ensures r == (s@.len() > 0 && s@.last() == c) { unimplemented!() }
+#[verifier::external_body]
+pub fn str_strip_suffix_char<'a>(s: &'a str, c: char) -> (r: Option<&'a str>)
+    ensures r is Some <==> (s@.len() > 0 && s@.last() == c), r is Some ==> r->0@ == s@.drop_last()
+{ unimplemented!() }
+#[verifier::external_body]
+pub fn str_strip_prefix_char<'a>(s: &'a str, c: char) -> (r: Option<&'a str>)
+    ensures r is Some <==> (s@.len() > 0 && s@[0] == c), r is Some ==> r->0@ == s@.skip(1)
+{ unimplemented!() }
+// trim family: the result is a sub-slice (which characters are trimmed is not needed by any property here)
+#[verifier::external_body]
+pub fn str_trim_end_matches<'a>(s: &'a str, c: char) -> (r: &'a str) ensures exists|n: int| 0 <= n <= s@.len() && r@ == s@.take(n) { unimplemented!() }
+#[verifier::external_body]
+pub fn str_trim_start_matches<'a>(s: &'a str, c: char) -> (r: &'a str) ensures exists|n: int| 0 <= n <= s@.len() && r@ == s@.skip(n) { unimplemented!() }
+#[verifier::external_body]
+pub fn str_trim_matches<'a>(s: &'a str, c: char) -> (r: &'a str) ensures exists|a: int, b: int| 0 <= a <= b <= s@.len() && r@ == s@.subrange(a, b) { unimplemented!() }
+#[verifier::external_body]
+pub fn str_trim<'a>(s: &'a str) -> (r: &'a str) ensures exists|a: int, b: int| 0 <= a <= b <= s@.len() && r@ == s@.subrange(a, b) { unimplemented!() }
